@@ -1127,6 +1127,14 @@ class Emitter:
                     '_Bool': 'bool', 'unsigned char': 'uchar'}.get(c)
         if kind is None:
             kind = re.sub(r'\W+', '_', c)
+        if put and kind == 'cstr':
+            lit = it0
+            while lit.get('kind') in ('ImplicitCastExpr',):
+                lit = lit['inner'][0]
+            if lit.get('kind') == 'StringLiteral':
+                import zlib
+                self.fire('E7_literal')
+                return 'ios_put_lit(%s, %s, 0x%08xUL)' % (sp, lit['value'], zlib.crc32(lit['value'].encode()) & 0xffffffff)
         if put:
             if kind == 'str' or not self.T.is_scalar(c) and kind not in ('cstr', 'mpz'):
                 return 'ios_put_%s(%s, %s)' % (kind, sp, self.addr(it0, ctx))
